@@ -58,6 +58,7 @@ type FaultProfile struct {
 	SlowUpdate  int           // Update answers after Slow
 	SlowOther   int           // any other call answers after Slow
 	Slow        time.Duration
+	SlowAck     bool
 	WatchClose  int // per delivered watch entry: the updates channel is closed by the "server"
 }
 
@@ -109,13 +110,22 @@ func (s *Store) sleep(d time.Duration) bool {
 	if d <= 0 {
 		return !s.closed()
 	}
-	t := time.NewTimer(d)
-	defer t.Stop()
-	select {
-	case <-t.C:
-		return true
-	case <-s.done:
-		return false
+	// time.Sleep, not a timer channel: receiving from a timer channel orders the receiver after every goroutine whose
+	// own timers fired on the same processor before (the race detector follows the runtime's timer context), which would
+	// hide races between a late answer and what its caller did meanwhile
+	end := time.Now().Add(d)
+	for {
+		left := time.Until(end)
+		if left <= 0 {
+			return !s.closed()
+		}
+		if left > 20*time.Millisecond {
+			left = 20 * time.Millisecond
+		}
+		time.Sleep(left)
+		if s.closed() {
+			return false
+		}
 	}
 }
 
@@ -148,7 +158,10 @@ func (s *Store) planFor(update bool) plan {
 		slow = s.prof.SlowUpdate
 	}
 	if slow > 0 && s.rng.Intn(1000) < slow {
-		if s.rng.Intn(2) == 0 {
+		// SlowAck: the delay is always on the way back (the write is applied at once, its acknowledgement is late): the
+		// goroutine that waits for the answer takes no lock of this store between the delay and its return, so that
+		// whatever it does with the answer is not accidentally ordered after the caller's later store calls
+		if s.rng.Intn(2) == 0 && !s.prof.SlowAck {
 			p.pre += s.prof.Slow
 		} else {
 			p.post += s.prof.Slow
@@ -354,14 +367,17 @@ func (w *watcher) pump() {
 		}
 		if s.prof.MaxLatency > 0 && w.rng.Intn(3) != 0 {
 			d := time.Duration(w.rng.Int63n(int64(s.prof.MaxLatency) + 1))
-			t := time.NewTimer(d)
-			select {
-			case <-t.C:
-			case <-w.stop:
-				t.Stop()
-				return
-			case <-s.done:
-				t.Stop()
+			stopped := func() bool {
+				select {
+				case <-w.stop:
+					return true
+				case <-s.done:
+					return true
+				default:
+					return false
+				}
+			}
+			if !waitNoSync(d, stopped) {
 				return
 			}
 		}
